@@ -14,7 +14,7 @@
 //!   sum of rewards <= rewards vault, every stake vault grows by emission + reward;
 //!   next validator set: at most max_validators, stake descending, positive stake, registered.
 use num_bigint::BigInt;
-use num_traits::Signed;
+use num_traits::{Signed, Zero};
 use radix_common::prelude::*;
 use radix_engine::blueprints::consensus_manager::*;
 use radix_engine::system::system_db_reader::SystemDatabaseReader;
@@ -55,6 +55,7 @@ struct World {
 struct VState {
     v: BigInt,
     u: BigInt,
+    locked: BigInt,
     ff: BigInt,
     registered: bool,
     prefix: i64, // 65536 = not in the index
@@ -64,11 +65,6 @@ struct VState {
 
 impl World {
     fn new(rng: &mut Rng) -> World {
-        let staker_sk = Secp256k1PrivateKey::from_u64(1000).unwrap();
-        let staker_pk = staker_sk.public_key();
-        let staker = ComponentAddress::preallocated_account_from_public_key(&staker_pk);
-        let keys: Vec<Secp256k1PublicKey> =
-            (0..NV).map(|i| Secp256k1PrivateKey::from_u64(1 + i as u64).unwrap().public_key()).collect();
         let stakes: Vec<Decimal> = (0..NV)
             .map(|_| match rng.below(4) {
                 0 => Decimal::from(rng.range(1, 50)),
@@ -90,6 +86,26 @@ impl World {
             3 => dec!("0.9"),
             _ => dec(&(BigInt::from(rng.range(1, 999_999_999)) * BigInt::from(1_000_000_000u64))),
         };
+        let ffs: Vec<Decimal> = (0..NV)
+            .map(|_| match rng.below(5) {
+                0 => Decimal::ONE,
+                1 => Decimal::ZERO,
+                2 => dec!("0.02"),
+                3 => dec!("0.5"),
+                _ => dec(&(BigInt::from(rng.range(1, 999_999_999)) * BigInt::from(1_000_000_000u64))),
+            })
+            .collect();
+        // at most one unregistered validator (it still holds stake and accepts more)
+        let regs: Vec<bool> = (0..NV).map(|i| !(i == NV - 1 && rng.chance(1, 4))).collect();
+        World::build(stakes, ffs, regs, emission, minrel)
+    }
+
+    fn build(stakes: Vec<Decimal>, ffs: Vec<Decimal>, regs: Vec<bool>, emission: Decimal, minrel: Decimal) -> World {
+        let staker_sk = Secp256k1PrivateKey::from_u64(1000).unwrap();
+        let staker_pk = staker_sk.public_key();
+        let staker = ComponentAddress::preallocated_account_from_public_key(&staker_pk);
+        let keys: Vec<Secp256k1PublicKey> =
+            (0..NV).map(|i| Secp256k1PrivateKey::from_u64(1 + i as u64).unwrap().public_key()).collect();
         let config = ConsensusManagerConfig::test_default()
             .with_max_validators(MAXV)
             .with_epoch_change_condition(EpochChangeCondition { min_round_count: 1, max_round_count: 50, target_duration_millis: 0 })
@@ -101,15 +117,8 @@ impl World {
             .enumerate()
             .map(|(i, k)| {
                 let mut g = GenesisValidator::from(*k);
-                g.fee_factor = match rng.below(5) {
-                    0 => Decimal::ONE,
-                    1 => Decimal::ZERO,
-                    2 => dec!("0.02"),
-                    3 => dec!("0.5"),
-                    _ => dec(&(BigInt::from(rng.range(1, 999_999_999)) * BigInt::from(1_000_000_000u64))),
-                };
-                // at most one unregistered validator (it still holds stake and accepts more)
-                g.is_registered = !(i == NV - 1 && rng.chance(1, 4));
+                g.fee_factor = ffs[i];
+                g.is_registered = regs[i];
                 g
             })
             .collect();
@@ -144,6 +153,23 @@ impl World {
         w
     }
 
+    /// the staker's claim NFTs of validator i: (id, claim amount, claim epoch)
+    fn claims(&mut self, i: usize) -> Vec<(NonFungibleLocalId, BigInt, u64)> {
+        let res = self.ledger.get_validator_info(self.validators[i]).claim_nft;
+        let mut out = Vec::new();
+        for vault in self.ledger.get_component_vaults(self.staker, res) {
+            let ids: Vec<NonFungibleLocalId> = match self.ledger.inspect_non_fungible_vault(vault) {
+                Some((_, it)) => it.collect(),
+                None => vec![],
+            };
+            for id in ids {
+                let d: UnstakeData = self.ledger.get_non_fungible_data(res, id.clone());
+                out.push((id, big(d.claim_amount), d.claim_epoch.number()));
+            }
+        }
+        out
+    }
+
     /// all validator components, matched to the genesis keys
     fn find_validators(&self) -> Vec<ComponentAddress> {
         let mut out = vec![None; NV];
@@ -167,9 +193,11 @@ impl World {
             Some((p, _)) => ((p[0] as i64) << 8) | p[1] as i64,
             None => 65536,
         };
+        let locked = big(self.ledger.inspect_vault_balance(s.locked_owner_stake_unit_vault_id.0).unwrap());
         VState {
             v,
             u,
+            locked,
             ff: big(s.validator_fee_factor),
             registered: s.is_registered,
             prefix,
@@ -217,13 +245,467 @@ fn prefix_and_reg(s: &VState) -> String {
     format!("{} {}", coq_bool(s.registered), s.prefix)
 }
 
+
+#[derive(Clone, Debug)]
+enum Plan {
+    Stake(usize, BigInt),
+    UnstakeAll(usize),
+    Claim(usize),
+    Epoch(u64, Vec<u8>, u8), // rounds, gap leaders, current leader (indices into the active set)
+}
+
+struct Runner {
+    w: World,
+    obs: Vec<String>,
+    failures: Vec<(String, serde_json::Value)>,
+    counts: std::collections::BTreeMap<String, u64>,
+    last_stake: Option<(usize, BigInt, BigInt)>, // validator, xrd, units
+    had_emission: bool,
+    had_roundtrip: bool,
+    step: usize,
+    dead: bool,
+}
+
+impl Runner {
+    fn new(w: World) -> Runner {
+        let mut r = Runner {
+            w,
+            obs: vec![],
+            failures: vec![],
+            counts: Default::default(),
+            last_stake: None,
+            had_emission: false,
+            had_roundtrip: false,
+            step: 0,
+            dead: false,
+        };
+        let vs: Vec<VState> = (0..NV).map(|i| r.w.vstate(i)).collect();
+        let (proposer, vault) = r.w.rewards_state();
+        let epoch = r.w.ledger.get_current_epoch().number();
+        r.obs.push(format!(
+            "OInit {} {} {} {}",
+            coq_list(vs.iter().map(|s| format!("({}, {}, {}, {}, {}, {})", z(&s.v), z(&s.u), z(&s.pending), z(&s.locked), z(&s.ff), coq_bool(s.registered)))),
+            z(&vault),
+            coq_list(proposer.iter().map(|(k, v)| format!("({}, {})", k, z(v)))),
+            epoch
+        ));
+        r
+    }
+    fn cnt(&mut self, k: &str) {
+        *self.counts.entry(k.to_string()).or_insert(0) += 1;
+    }
+    fn fail(&mut self, what: String) {
+        let step = self.step;
+        self.failures.push((format!("step {}: {}", step, what), json!({})));
+    }
+
+    fn stake(&mut self, vi: usize, x: BigInt) {
+        let before = self.w.vstate(vi);
+        let unit_res = self.w.unit_resource(vi);
+        let acc_units0 = big(self.w.ledger.get_component_balance(self.w.staker, unit_res));
+        let acc_xrd0 = big(self.w.ledger.get_component_balance(self.w.staker, XRD));
+        let (staker, validator) = (self.w.staker, self.w.validators[vi]);
+        let m = ManifestBuilder::new()
+            .lock_fee_from_faucet()
+            .withdraw_from_account(staker, XRD, dec(&x))
+            .take_all_from_worktop(XRD, "x")
+            .with_name_lookup(|b, l| b.call_method(validator, VALIDATOR_STAKE_IDENT, manifest_args!(l.bucket("x"))))
+            .try_deposit_entire_worktop_or_abort(staker, None)
+            .build();
+        let receipt = self.w.exec(m);
+        if !receipt.is_commit_success() {
+            self.fail(format!("stake of {} failed: {:?}", x, receipt.expect_commit_ignore_outcome().outcome));
+            self.dead = true;
+            return;
+        }
+        let after = self.w.vstate(vi);
+        let units = big(self.w.ledger.get_component_balance(staker, unit_res)) - acc_units0;
+        let paid = acc_xrd0 - big(self.w.ledger.get_component_balance(staker, XRD));
+        self.cnt("stake_ok");
+        if paid != x || &after.v - &before.v != x {
+            self.fail(format!("stake moved {} from the account, {} into the vault, requested {}", paid, &after.v - &before.v, x));
+        }
+        if &after.u - &before.u != units || units.is_negative() {
+            self.fail(format!("minted units {} differ from supply change", units));
+        }
+        if before.v.is_positive() && &units * &before.v > &x * &before.u {
+            self.fail(format!("stake units {} exceed the proportional amount (x={}, V={}, U={})", units, x, before.v, before.u));
+        }
+        if x.is_positive() && units.is_zero() {
+            // the staker's XRD is in the vault but no unit was issued: recorded, see Props/C42.v
+            self.cnt("stakes_of_positive_xrd_minting_zero_units");
+            if before.u.is_zero() && before.v.is_positive() {
+                self.cnt("stakes_into_vault_with_dust_but_zero_unit_supply");
+            }
+        }
+        self.obs.push(format!("OStake {} {} {} {} ({}, {}, {}) {}", vi, z(&x), z(&before.v), z(&before.u), z(&units), z(&after.v), z(&after.u), prefix_and_reg(&after)));
+        self.last_stake = if units.is_positive() { Some((vi, x, units)) } else { None };
+    }
+
+    fn unstake(&mut self, vi: usize, units: BigInt, from_stake: Option<BigInt>) {
+        self.last_stake = None;
+        let unit_res = self.w.unit_resource(vi);
+        let have = big(self.w.ledger.get_component_balance(self.w.staker, unit_res));
+        if !units.is_positive() || units > have {
+            return;
+        }
+        let before = self.w.vstate(vi);
+        let (staker, validator) = (self.w.staker, self.w.validators[vi]);
+        let m = ManifestBuilder::new()
+            .lock_fee_from_faucet()
+            .withdraw_from_account(staker, unit_res, dec(&units))
+            .take_all_from_worktop(unit_res, "u")
+            .with_name_lookup(|b, l| b.call_method(validator, VALIDATOR_UNSTAKE_IDENT, manifest_args!(l.bucket("u"))))
+            .try_deposit_entire_worktop_or_abort(staker, None)
+            .build();
+        let receipt = self.w.exec(m);
+        if !receipt.is_commit_success() {
+            self.fail(format!("unstake of {} failed: {:?}", units, receipt.expect_commit_ignore_outcome().outcome));
+            self.dead = true;
+            return;
+        }
+        let after = self.w.vstate(vi);
+        let claim = &after.pending - &before.pending;
+        self.cnt("unstake_ok");
+        if &before.v - &after.v != claim || &before.u - &after.u != units || claim.is_negative() {
+            self.fail(format!("unstake bookkeeping mismatch (claim {}, dV {}, dU {})", claim, &before.v - &after.v, &before.u - &after.u));
+        }
+        if &claim * &before.u > &units * &before.v {
+            self.fail(format!("claim {} exceeds the proportional share of {} units (V={}, U={})", claim, units, before.v, before.u));
+        }
+        if after.u.is_zero() && after.v.is_positive() {
+            self.cnt("unstakes_leaving_dust_with_zero_unit_supply");
+        }
+        if let Some(x) = from_stake {
+            self.cnt("stake_unstake_round_trips");
+            self.had_roundtrip = true;
+            if claim > x {
+                self.fail(format!("staking {} then unstaking the minted units claims {}", x, claim));
+            }
+            if claim < x {
+                self.cnt("round_trips_with_rounding_loss");
+            }
+        }
+        self.obs.push(format!(
+            "OUnstake {} {} 1 {} {} ({}, {}, {}) {} {}",
+            vi, z(&units), z(&before.v), z(&before.u), z(&claim), z(&after.v), z(&after.u), prefix_and_reg(&after), z(&after.pending)
+        ));
+    }
+
+    fn claim(&mut self, vi: usize, pick: usize) {
+        self.last_stake = None;
+        let claims = self.w.claims(vi);
+        if claims.is_empty() {
+            return;
+        }
+        let (id, amt, ce) = claims[pick % claims.len()].clone();
+        let cur = self.w.ledger.get_current_epoch().number();
+        let before = self.w.vstate(vi);
+        let nft = self.w.ledger.get_validator_info(self.w.validators[vi]).claim_nft;
+        let (staker, validator) = (self.w.staker, self.w.validators[vi]);
+        let xrd0 = big(self.w.ledger.get_component_balance(staker, XRD));
+        let m = ManifestBuilder::new()
+            .lock_fee_from_faucet()
+            .withdraw_non_fungibles_from_account(staker, nft, [id])
+            .take_all_from_worktop(nft, "c")
+            .with_name_lookup(|b, l| b.call_method(validator, VALIDATOR_CLAIM_XRD_IDENT, manifest_args!(l.bucket("c"))))
+            .try_deposit_entire_worktop_or_abort(staker, None)
+            .build();
+        let receipt = self.w.exec(m);
+        let ok = receipt.is_commit_success();
+        let after = self.w.vstate(vi);
+        let got = big(self.w.ledger.get_component_balance(staker, XRD)) - xrd0;
+        self.cnt(if ok { "claim_ok" } else { "claim_refused_before_epoch" });
+        if ok != (cur >= ce) {
+            self.fail(format!("claim at epoch {} of a claim for epoch {}: success = {}", cur, ce, ok));
+        }
+        if ok && (got != amt || &before.pending - &after.pending != amt) {
+            self.fail(format!("claim of {} paid {} (pending vault {} -> {})", amt, got, before.pending, after.pending));
+        }
+        if !ok && (!got.is_zero() || before.pending != after.pending) {
+            self.fail("refused claim moved XRD".to_string());
+        }
+        if before.v != after.v || before.u != after.u {
+            self.fail("claim changed the stake vault or the unit supply".to_string());
+        }
+        self.obs.push(format!("OClaim {} {} {} {} {} {} {}", vi, z(&amt), ce, cur, coq_bool(ok), z(&got), z(&after.pending)));
+    }
+
+    fn epoch(&mut self, rounds: u64, gaps_in: Vec<u8>, leader_in: u8) {
+        self.last_stake = None;
+        let step = self.step;
+        let w = &mut self.w;
+        let active = w.active_set();
+        let n_active = active.len().max(1) as u8;
+        let befores: Vec<VState> = (0..NV).map(|i| w.vstate(i)).collect();
+        let (proposer, vault) = w.rewards_state();
+        let cur_round = w.ledger.get_consensus_manager_state().round.number();
+        let gaps: Vec<u8> = gaps_in.iter().map(|g| g % n_active).collect();
+        let leader = leader_in % n_active;
+        let ts = w.ledger.get_current_proposer_timestamp_ms();
+        let receipt = w.ledger.execute_system_transaction(
+            ManifestBuilder::new_system_v1()
+                .call_method(
+                    CONSENSUS_MANAGER,
+                    CONSENSUS_MANAGER_NEXT_ROUND_IDENT,
+                    ConsensusManagerNextRoundInput {
+                        round: Round::of(cur_round + rounds),
+                        proposer_timestamp_ms: ts,
+                        leader_proposal_history: LeaderProposalHistory { gap_round_leaders: gaps.clone(), current_leader: leader, is_fallback: false },
+                    },
+                )
+                .build(),
+            btreeset![system_execution(SystemExecution::Validator)],
+        );
+        if !receipt.is_commit_success() {
+            self.failures.push((format!("step {}: epoch change failed: {:?}", step, receipt.expect_commit_ignore_outcome().outcome), json!({})));
+            self.dead = true;
+            return;
+        }
+        let result = receipt.expect_commit_success();
+        let next = match result.next_epoch() {
+            Some(e) => e,
+            None => {
+                self.failures.push((format!("step {}: no epoch change after {} rounds", step, rounds), json!({})));
+                self.dead = true;
+                return;
+            }
+        };
+        let mut fails: Vec<String> = Vec::new();
+        let mut cnts: Vec<&'static str> = vec!["epoch_changes"];
+        let vaddrs = w.validators.clone();
+        let idx_of = |a: &NodeId| vaddrs.iter().position(|v| v.as_node_id() == a);
+        let mut emis: Vec<(usize, BigInt)> = Vec::new();
+        let mut stats: std::collections::BTreeMap<usize, (u64, u64)> = Default::default();
+        let mut rew: Vec<(usize, BigInt)> = Vec::new();
+        let mut xrd_minted = BigInt::from(0u32);
+        for (id, data) in result.application_events.iter() {
+            let node = match &id.0 {
+                Emitter::Method(n, _) => *n,
+                Emitter::Function(b) => *b.package_address.as_node_id(),
+            };
+            if node == *XRD.as_node_id() && w.ledger.is_event_name_equal::<radix_engine::blueprints::resource::MintFungibleResourceEvent>(id) {
+                let e: radix_engine::blueprints::resource::MintFungibleResourceEvent = scrypto_decode(data).unwrap();
+                xrd_minted += big(e.amount);
+            } else if w.ledger.is_event_name_equal::<ValidatorEmissionAppliedEvent>(id) {
+                let e: ValidatorEmissionAppliedEvent = scrypto_decode(data).unwrap();
+                let vi = idx_of(&node).unwrap();
+                emis.push((vi, big(e.validator_fee_xrd) + big(e.stake_pool_added_xrd)));
+                stats.insert(vi, (e.proposals_made, e.proposals_missed));
+            } else if w.ledger.is_event_name_equal::<ValidatorRewardAppliedEvent>(id) {
+                let e: ValidatorRewardAppliedEvent = scrypto_decode(data).unwrap();
+                rew.push((idx_of(&node).unwrap(), big(e.amount)));
+            }
+        }
+        let afters: Vec<VState> = (0..NV).map(|i| w.vstate(i)).collect();
+        let (_, vault_after) = w.rewards_state();
+        let epoch_after = w.ledger.get_current_epoch().number();
+        let sum_e: BigInt = emis.iter().map(|(_, e)| e.clone()).sum();
+        let sum_r: BigInt = rew.iter().map(|(_, e)| e.clone()).sum();
+        if sum_e > w.total_emission {
+            fails.push(format!("emissions {} exceed the configured amount {}", sum_e, w.total_emission));
+        }
+        if xrd_minted != sum_e {
+            fails.push(format!("{} XRD minted but emissions sum to {}", xrd_minted, sum_e));
+        }
+        if sum_r > vault {
+            fails.push(format!("rewards {} exceed the rewards vault {}", sum_r, vault));
+        }
+        if &vault - &vault_after != sum_r {
+            fails.push(format!("rewards vault shrank by {} but rewards sum to {}", &vault - &vault_after, sum_r));
+        }
+        if sum_e.is_positive() {
+            self.had_emission = true;
+            cnts.push("epochs_with_emission");
+        }
+        if sum_r.is_positive() {
+            cnts.push("epochs_with_rewards");
+        }
+        if stats.values().any(|(_, missed)| *missed > 0) {
+            cnts.push("epochs_with_missed_proposals");
+        }
+        for i in 0..NV {
+            let e: BigInt = emis.iter().filter(|(v, _)| *v == i).map(|(_, e)| e.clone()).sum();
+            let r: BigInt = rew.iter().filter(|(v, _)| *v == i).map(|(_, e)| e.clone()).sum();
+            if &afters[i].v - &befores[i].v != &e + &r {
+                fails.push(format!("validator {} stake grew by {} but emission+reward = {}", i, &afters[i].v - &befores[i].v, &e + &r));
+            }
+            if afters[i].u < befores[i].u || afters[i].pending != befores[i].pending {
+                fails.push(format!("validator {}: unit supply shrank or pending vault changed in an epoch change", i));
+            }
+        }
+        let next_list: Vec<(usize, BigInt)> =
+            next.validator_set.validators_by_stake_desc.iter().map(|(a, v)| (idx_of(a.as_node_id()).unwrap(), big(v.stake))).collect();
+        if next_list.len() > MAXV as usize {
+            fails.push(format!("next validator set has {} members", next_list.len()));
+        }
+        for k in 0..next_list.len() {
+            if k + 1 < next_list.len() && next_list[k].1 < next_list[k + 1].1 {
+                fails.push("next validator set not ordered by stake".to_string());
+            }
+            let (vi, st) = &next_list[k];
+            if !st.is_positive() || !afters[*vi].registered || *st != afters[*vi].v {
+                fails.push(format!("member {} of the next set: stake {} registered {} vault {}", vi, st, afters[*vi].registered, afters[*vi].v));
+            }
+        }
+        if let Some((_, min_st)) = next_list.last() {
+            for i in 0..NV {
+                if afters[i].registered && afters[i].v > *min_st && !next_list.iter().any(|(v, _)| *v == i) {
+                    fails.push(format!("validator {} with stake {} left out of the next set", i, afters[i].v));
+                }
+            }
+        }
+        if (0..NV).filter(|i| afters[*i].registered && afters[*i].v.is_positive()).count() > MAXV as usize {
+            cnts.push("epochs_with_validator_cut_off");
+        }
+        let mut scan: Vec<(Vec<u8>, Vec<u8>, usize)> = (0..NV).filter_map(|i| afters[i].sort_key.clone().map(|(p, a)| (p, a, i))).collect();
+        scan.sort();
+        let active_s = coq_list(active.iter().map(|(a, st)| {
+            let vi = idx_of(a.as_node_id()).unwrap();
+            let (made, missed) = stats.get(&vi).cloned().unwrap_or((0, 0));
+            format!("({}, {}, {}, {})", vi, z(st), made, missed)
+        }));
+        let vals_s = coq_list((0..NV).map(|i| {
+            format!("({}, ({}, {}, {}), ({}, {}), {})", i, z(&befores[i].v), z(&befores[i].u), z(&befores[i].ff), z(&afters[i].v), z(&afters[i].u), afters[i].prefix)
+        }));
+        let o = format!(
+            "OEpoch {} {} {} {} {} {} {} {} {} {} {} {} {} {}",
+            z(&w.total_emission),
+            z(&w.minrel),
+            MAXV,
+            active_s,
+            coq_list(proposer.iter().map(|(k, v)| format!("({}, {})", k, z(v)))),
+            z(&vault),
+            coq_list(emis.iter().map(|(v, e)| format!("({}, {})", v, z(e)))),
+            coq_list(rew.iter().map(|(v, e)| format!("({}, {})", v, z(e)))),
+            vals_s,
+            coq_list(scan.iter().map(|(_, _, i)| format!("({}, {})", i, z(&afters[*i].v)))),
+            coq_list(next_list.iter().map(|(v, st)| format!("({}, {})", v, z(st)))),
+            coq_list(afters.iter().map(|a| z(&a.locked))),
+            z(&vault_after),
+            epoch_after,
+        );
+        self.obs.push(o);
+        for c in cnts {
+            self.cnt(c);
+        }
+        for f in fails {
+            self.fail(f);
+        }
+    }
+
+    fn random_step(&mut self, rng: &mut Rng) {
+        let r = if self.last_stake.is_some() && rng.chance(1, 2) { 100 } else { rng.below(100) };
+        if r < 30 {
+            let vi = rng.usize_below(NV);
+            let before_v = self.w.vstate(vi).v;
+            let x: BigInt = match rng.below(6) {
+                0 => BigInt::from(rng.range(1, 1000)) * BigInt::from(10u64).pow(18),
+                1 => BigInt::from(rng.range(1, 1_000_000_000)),
+                2 => BigInt::from(rng.next_u64()) * BigInt::from(rng.range(1, 1_000_000_000)),
+                3 => &before_v / BigInt::from(rng.range(1, 9)) + BigInt::from(rng.below(3)),
+                4 => BigInt::from(rng.range(50_000, 400_000)) * BigInt::from(10u64).pow(18),
+                _ => BigInt::from(1u32),
+            };
+            self.stake(vi, x);
+        } else if r < 52 || r == 100 {
+            let (vi, units, from_stake) = match (self.last_stake.clone(), r == 100) {
+                (Some((vi, x, u)), true) => (vi, u, Some(x)),
+                _ => {
+                    let vi = rng.usize_below(NV);
+                    let have = big(self.w.ledger.get_component_balance(self.w.staker, self.w.unit_resource(vi)));
+                    let u = match rng.below(5) {
+                        0 => have.clone(),
+                        1 => &have / BigInt::from(rng.range(2, 9)),
+                        2 => BigInt::from(1u32),
+                        3 => &have - BigInt::from(1u32),
+                        _ => &have * BigInt::from(rng.range(1, 99)) / BigInt::from(100u32),
+                    };
+                    (vi, u, None)
+                }
+            };
+            self.unstake(vi, units, from_stake);
+        } else if r < 64 {
+            let vi = rng.usize_below(NV);
+            let pick = rng.usize_below(8);
+            self.claim(vi, pick);
+        } else {
+            let rounds = rng.range(1, 6);
+            let gaps: Vec<u8> = (0..rounds - 1).map(|_| rng.below(8) as u8).collect();
+            let leader = rng.below(8) as u8;
+            self.epoch(rounds, gaps, leader);
+        }
+    }
+}
+
+struct CaseResult {
+    index: usize,
+    coq: String,
+    nontrivial: bool,
+    counts: Vec<(String, u64)>,
+    failures: Vec<(String, serde_json::Value)>,
+}
+
+fn finish(index: usize, r: Runner) -> CaseResult {
+    CaseResult {
+        index,
+        coq: format!("({})%Z", coq_list(r.obs.iter().cloned())),
+        nontrivial: r.had_emission && r.had_roundtrip,
+        counts: r.counts.into_iter().collect(),
+        failures: r.failures,
+    }
+}
+
+/// Scripted history replayed on every run: validator 0 (fee factor 0, all units held by the
+/// staker) receives an emission, so stake vault / unit supply is not representable with 18 digits;
+/// the staker unstakes all units (dust stays in the vault, supply 0), then stakes 5 XRD and gets
+/// zero stake units; finally the claim is paid after one more epoch.
+fn scripted_zero_supply(index: usize) -> CaseResult {
+    let w = World::build(
+        vec![dec!(13), dec!(7), dec!(11), dec!(3)],
+        vec![Decimal::ZERO, Decimal::ONE, Decimal::ONE, Decimal::ONE],
+        vec![true; NV],
+        Decimal::ONE,
+        Decimal::ONE,
+    );
+    let mut r = Runner::new(w);
+    let plans = vec![
+        Plan::Epoch(1, vec![], 0),
+        Plan::Stake(0, BigInt::from(10u64).pow(18)),
+        Plan::UnstakeAll(0),
+        Plan::Stake(0, BigInt::from(5u32) * BigInt::from(10u64).pow(18)),
+        Plan::Claim(0),
+        Plan::Epoch(1, vec![], 0),
+        Plan::Claim(0),
+        Plan::Stake(0, BigInt::from(1u32) * BigInt::from(10u64).pow(18)),
+    ];
+    for p in plans {
+        if r.dead {
+            break;
+        }
+        r.step += 1;
+        match p {
+            Plan::Stake(vi, x) => r.stake(vi, x),
+            Plan::UnstakeAll(vi) => {
+                let have = big(r.w.ledger.get_component_balance(r.w.staker, r.w.unit_resource(vi)));
+                r.unstake(vi, have, None)
+            }
+            Plan::Claim(vi) => r.claim(vi, 0),
+            Plan::Epoch(rounds, gaps, leader) => r.epoch(rounds, gaps, leader),
+        }
+    }
+    r.cnt("scripted_zero_supply_histories");
+    finish(index, r)
+}
+
 fn main() {
     let args = Args::parse();
     let mut report = Report::new(
         "C42",
         args.seed,
-        "histories of 8..16 operations (stake / unstake by a delegating staker on 4 genesis validators with random stakes, epoch changes \
-         with 1..6 rounds and random gap-round leaders) under random emission amount and minimum reliability, max_validators = 3; \
+        "histories of 8..16 operations (stake / unstake / claim_xrd by a delegating staker on 4 genesis validators with random stakes and \
+         fee factors, epoch changes with 1..6 rounds and random gap-round leaders) under random emission amount and minimum reliability, \
+         max_validators = 3, plus one scripted history (all units of a validator unstaked after an emission, then a new stake); \
          non-trivial = at least one epoch change with a positive emission and one stake followed by an unstake; distinct by canonical text",
     );
     let mut cw = CaseWriter::new("RV.Corr.C42_run RV.Model.C42_Staking", "check");
@@ -231,13 +713,6 @@ fn main() {
     let threads: usize = args.extra.get("threads").and_then(|s| s.parse().ok()).unwrap_or(4).max(1);
     let cases = args.cases;
     let thorough = args.tier == "thorough";
-    struct CaseResult {
-        index: usize,
-        coq: String,
-        nontrivial: bool,
-        counts: Vec<(String, u64)>,
-        failures: Vec<(String, serde_json::Value)>,
-    }
     let mut results: Vec<CaseResult> = std::thread::scope(|sc| {
         let hs: Vec<_> = (0..threads)
             .map(|t| {
@@ -247,280 +722,21 @@ fn main() {
                     let mut i = t;
                     while i < cases {
                         let mut rng = root.fork(i as u64);
-                        let mut w = World::new(&mut rng);
-                        let mut obs: Vec<String> = Vec::new();
-                        let mut failures: Vec<(String, serde_json::Value)> = Vec::new();
-                        let mut counts: std::collections::BTreeMap<String, u64> = Default::default();
-                        let mut cnt = |k: &str| *counts.entry(k.to_string()).or_insert(0) += 1;
+                        let w = World::new(&mut rng);
+                        let mut r = Runner::new(w);
                         let len = if thorough { rng.range(10, 24) } else { rng.range(8, 16) };
-                        let mut last_stake: Option<(usize, BigInt, BigInt)> = None; // validator, xrd, units
-                        let mut had_emission = false;
-                        let mut had_roundtrip = false;
-                        for step in 0..len {
-                            let r = if let Some(_) = &last_stake { if rng.chance(1, 2) { 100 } else { rng.below(100) } } else { rng.below(100) };
-                            if r < 35 {
-                                // stake
-                                let vi = rng.usize_below(NV);
-                                let before = w.vstate(vi);
-                                let x: BigInt = match rng.below(6) {
-                                    0 => BigInt::from(rng.range(1, 1000)) * BigInt::from(10u64).pow(18),
-                                    1 => BigInt::from(rng.range(1, 1_000_000_000)),
-                                    2 => BigInt::from(rng.next_u64()) * BigInt::from(rng.range(1, 1_000_000_000)),
-                                    3 => &before.v / BigInt::from(rng.range(1, 9)) + BigInt::from(rng.below(3)),
-                                    4 => BigInt::from(rng.range(50_000, 400_000)) * BigInt::from(10u64).pow(18),
-                                    _ => BigInt::from(1u32),
-                                };
-                                let unit_res = w.unit_resource(vi);
-                                let acc_units0 = big(w.ledger.get_component_balance(w.staker, unit_res));
-                                let acc_xrd0 = big(w.ledger.get_component_balance(w.staker, XRD));
-                                let m = ManifestBuilder::new()
-                                    .lock_fee_from_faucet()
-                                    .withdraw_from_account(w.staker, XRD, dec(&x))
-                                    .take_all_from_worktop(XRD, "x")
-                                    .with_name_lookup(|b, l| b.call_method(w.validators[vi], VALIDATOR_STAKE_IDENT, manifest_args!(l.bucket("x"))))
-                                    .try_deposit_entire_worktop_or_abort(w.staker, None)
-                                    .build();
-                                let receipt = w.exec(m);
-                                if !receipt.is_commit_success() {
-                                    failures.push((format!("step {}: stake of {} failed: {:?}", step, x, receipt.expect_commit_ignore_outcome().outcome), json!({})));
-                                    break;
-                                }
-                                let after = w.vstate(vi);
-                                let units = big(w.ledger.get_component_balance(w.staker, unit_res)) - acc_units0;
-                                let paid = acc_xrd0 - big(w.ledger.get_component_balance(w.staker, XRD));
-                                cnt("stake_ok");
-                                if paid != x || &after.v - &before.v != x {
-                                    failures.push((format!("step {}: stake moved {} from the account, {} into the vault, requested {}", step, paid, &after.v - &before.v, x), json!({})));
-                                }
-                                if &after.u - &before.u != units || units.is_negative() {
-                                    failures.push((format!("step {}: minted units {} differ from supply change", step, units), json!({})));
-                                }
-                                if before.v.is_positive() && &units * &before.v > &x * &before.u {
-                                    failures.push((format!("step {}: stake units {} exceed the proportional amount (x={}, V={}, U={})", step, units, x, before.v, before.u), json!({})));
-                                }
-                                obs.push(format!("OStake {} {} {} ({}, {}, {}) {}", z(&x), z(&before.v), z(&before.u), z(&units), z(&after.v), z(&after.u), prefix_and_reg(&after)));
-                                last_stake = if units.is_positive() { Some((vi, x, units)) } else { None };
-                            } else if r < 60 || r == 100 {
-                                // unstake
-                                let (vi, units, from_stake) = match (&last_stake, r == 100) {
-                                    (Some((vi, x, u)), true) => (*vi, u.clone(), Some(x.clone())),
-                                    _ => {
-                                        let vi = rng.usize_below(NV);
-                                        let have = big(w.ledger.get_component_balance(w.staker, w.unit_resource(vi)));
-                                        let u = match rng.below(5) {
-                                            0 => have.clone(),
-                                            1 => &have / BigInt::from(rng.range(2, 9)),
-                                            2 => BigInt::from(1u32),
-                                            3 => &have - BigInt::from(1u32),
-                                            _ => &have * BigInt::from(rng.range(1, 99)) / BigInt::from(100u32),
-                                        };
-                                        (vi, u, None)
-                                    }
-                                };
-                                last_stake = None;
-                                let unit_res = w.unit_resource(vi);
-                                let have = big(w.ledger.get_component_balance(w.staker, unit_res));
-                                if !units.is_positive() || units > have {
-                                    continue;
-                                }
-                                let before = w.vstate(vi);
-                                let m = ManifestBuilder::new()
-                                    .lock_fee_from_faucet()
-                                    .withdraw_from_account(w.staker, unit_res, dec(&units))
-                                    .take_all_from_worktop(unit_res, "u")
-                                    .with_name_lookup(|b, l| b.call_method(w.validators[vi], VALIDATOR_UNSTAKE_IDENT, manifest_args!(l.bucket("u"))))
-                                    .try_deposit_entire_worktop_or_abort(w.staker, None)
-                                    .build();
-                                let receipt = w.exec(m);
-                                if !receipt.is_commit_success() {
-                                    failures.push((format!("step {}: unstake of {} failed: {:?}", step, units, receipt.expect_commit_ignore_outcome().outcome), json!({})));
-                                    break;
-                                }
-                                let after = w.vstate(vi);
-                                let claim = &after.pending - &before.pending;
-                                cnt("unstake_ok");
-                                if &before.v - &after.v != claim || &before.u - &after.u != units || claim.is_negative() {
-                                    failures.push((format!("step {}: unstake bookkeeping mismatch (claim {}, dV {}, dU {})", step, claim, &before.v - &after.v, &before.u - &after.u), json!({})));
-                                }
-                                if &claim * &before.u > &units * &before.v {
-                                    failures.push((format!("step {}: claim {} exceeds the proportional share of {} units (V={}, U={})", step, claim, units, before.v, before.u), json!({})));
-                                }
-                                if let Some(x) = from_stake {
-                                    cnt("stake_unstake_round_trips");
-                                    had_roundtrip = true;
-                                    if claim > x {
-                                        failures.push((format!("step {}: staking {} then unstaking the minted units claims {}", step, x, claim), json!({})));
-                                    }
-                                    if claim < x {
-                                        cnt("round_trips_with_rounding_loss");
-                                    }
-                                }
-                                obs.push(format!("OUnstake {} {} {} ({}, {}, {}) {}", z(&units), z(&before.v), z(&before.u), z(&claim), z(&after.v), z(&after.u), prefix_and_reg(&after)));
-                            } else {
-                                // epoch change
-                                last_stake = None;
-                                let active = w.active_set();
-                                let n_active = active.len() as u8;
-                                let befores: Vec<VState> = (0..NV).map(|i| w.vstate(i)).collect();
-                                let (proposer, vault) = w.rewards_state();
-                                let cur_round = w.ledger.get_consensus_manager_state().round.number();
-                                let rounds = rng.range(1, 6);
-                                let gaps: Vec<u8> = (0..rounds - 1).map(|_| rng.below(n_active as u64) as u8).collect();
-                                let leader = rng.below(n_active as u64) as u8;
-                                let ts = w.ledger.get_current_proposer_timestamp_ms();
-                                let receipt = w.ledger.execute_system_transaction(
-                                    ManifestBuilder::new_system_v1()
-                                        .call_method(
-                                            CONSENSUS_MANAGER,
-                                            CONSENSUS_MANAGER_NEXT_ROUND_IDENT,
-                                            ConsensusManagerNextRoundInput {
-                                                round: Round::of(cur_round + rounds),
-                                                proposer_timestamp_ms: ts,
-                                                leader_proposal_history: LeaderProposalHistory { gap_round_leaders: gaps.clone(), current_leader: leader, is_fallback: false },
-                                            },
-                                        )
-                                        .build(),
-                                    btreeset![system_execution(SystemExecution::Validator)],
-                                );
-                                if !receipt.is_commit_success() {
-                                    failures.push((format!("step {}: epoch change failed: {:?}", step, receipt.expect_commit_ignore_outcome().outcome), json!({})));
-                                    break;
-                                }
-                                let result = receipt.expect_commit_success();
-                                let next = match result.next_epoch() {
-                                    Some(e) => e,
-                                    None => {
-                                        failures.push((format!("step {}: no epoch change after {} rounds", step, rounds), json!({})));
-                                        break;
-                                    }
-                                };
-                                cnt("epoch_changes");
-                                let vaddrs = w.validators.clone();
-                                let idx_of = |a: &NodeId| vaddrs.iter().position(|v| v.as_node_id() == a);
-                                let mut emis: Vec<(usize, BigInt)> = Vec::new();
-                                let mut stats: std::collections::BTreeMap<usize, (u64, u64)> = Default::default();
-                                let mut rew: Vec<(usize, BigInt)> = Vec::new();
-                                let mut xrd_minted = BigInt::from(0u32);
-                                for (id, data) in result.application_events.iter() {
-                                    let node = match &id.0 {
-                                        Emitter::Method(n, _) => *n,
-                                        Emitter::Function(b) => *b.package_address.as_node_id(),
-                                    };
-                                    if node == *XRD.as_node_id() && w.ledger.is_event_name_equal::<radix_engine::blueprints::resource::MintFungibleResourceEvent>(id) {
-                                        let e: radix_engine::blueprints::resource::MintFungibleResourceEvent = scrypto_decode(data).unwrap();
-                                        xrd_minted += big(e.amount);
-                                    } else if w.ledger.is_event_name_equal::<ValidatorEmissionAppliedEvent>(id) {
-                                        let e: ValidatorEmissionAppliedEvent = scrypto_decode(data).unwrap();
-                                        let vi = idx_of(&node).unwrap();
-                                        emis.push((vi, big(e.validator_fee_xrd) + big(e.stake_pool_added_xrd)));
-                                        stats.insert(vi, (e.proposals_made, e.proposals_missed));
-                                    } else if w.ledger.is_event_name_equal::<ValidatorRewardAppliedEvent>(id) {
-                                        let e: ValidatorRewardAppliedEvent = scrypto_decode(data).unwrap();
-                                        rew.push((idx_of(&node).unwrap(), big(e.amount)));
-                                    }
-                                }
-                                let afters: Vec<VState> = (0..NV).map(|i| w.vstate(i)).collect();
-                                // oracle
-                                let sum_e: BigInt = emis.iter().map(|(_, e)| e.clone()).sum();
-                                let sum_r: BigInt = rew.iter().map(|(_, e)| e.clone()).sum();
-                                if sum_e > w.total_emission {
-                                    failures.push((format!("step {}: emissions {} exceed the configured amount {}", step, sum_e, w.total_emission), json!({})));
-                                }
-                                if xrd_minted != sum_e {
-                                    failures.push((format!("step {}: {} XRD minted but emissions sum to {}", step, xrd_minted, sum_e), json!({})));
-                                }
-                                if sum_r > vault {
-                                    failures.push((format!("step {}: rewards {} exceed the rewards vault {}", step, sum_r, vault), json!({})));
-                                }
-                                if sum_e.is_positive() {
-                                    had_emission = true;
-                                    cnt("epochs_with_emission");
-                                }
-                                if sum_r.is_positive() {
-                                    cnt("epochs_with_rewards");
-                                }
-                                if stats.values().any(|(_, missed)| *missed > 0) {
-                                    cnt("epochs_with_missed_proposals");
-                                }
-                                for i in 0..NV {
-                                    let e: BigInt = emis.iter().filter(|(v, _)| *v == i).map(|(_, e)| e.clone()).sum();
-                                    let r: BigInt = rew.iter().filter(|(v, _)| *v == i).map(|(_, e)| e.clone()).sum();
-                                    if &afters[i].v - &befores[i].v != &e + &r {
-                                        failures.push((format!("step {}: validator {} stake grew by {} but emission+reward = {}", step, i, &afters[i].v - &befores[i].v, &e + &r), json!({})));
-                                    }
-                                    if afters[i].u < befores[i].u {
-                                        failures.push((format!("step {}: validator {} stake unit supply shrank", step, i), json!({})));
-                                    }
-                                }
-                                let next_list: Vec<(usize, BigInt)> = next
-                                    .validator_set
-                                    .validators_by_stake_desc
-                                    .iter()
-                                    .map(|(a, v)| (idx_of(a.as_node_id()).unwrap(), big(v.stake)))
-                                    .collect();
-                                if next_list.len() > MAXV as usize {
-                                    failures.push((format!("step {}: next validator set has {} members", step, next_list.len()), json!({})));
-                                }
-                                for k in 0..next_list.len() {
-                                    if k + 1 < next_list.len() && next_list[k].1 < next_list[k + 1].1 {
-                                        failures.push((format!("step {}: next validator set not ordered by stake", step), json!({})));
-                                    }
-                                    let (vi, st) = &next_list[k];
-                                    if !st.is_positive() || !afters[*vi].registered || *st != afters[*vi].v {
-                                        failures.push((format!("step {}: member {} of the next set: stake {} registered {} vault {}", step, vi, st, afters[*vi].registered, afters[*vi].v), json!({})));
-                                    }
-                                }
-                                // every registered validator with more stake than the last member must be a member
-                                if let Some((_, min_st)) = next_list.last() {
-                                    for i in 0..NV {
-                                        if afters[i].registered && afters[i].v > *min_st && !next_list.iter().any(|(v, _)| *v == i) {
-                                            failures.push((format!("step {}: validator {} with stake {} left out of the next set", step, i, afters[i].v), json!({})));
-                                        }
-                                    }
-                                }
-                                if (0..NV).filter(|i| afters[*i].registered && afters[*i].v.is_positive()).count() > MAXV as usize {
-                                    cnt("epochs_with_validator_cut_off");
-                                }
-                                // scan order of the index: by (prefix, address bytes)
-                                let mut scan: Vec<(Vec<u8>, Vec<u8>, usize)> = (0..NV)
-                                    .filter_map(|i| afters[i].sort_key.clone().map(|(p, a)| (p, a, i)))
-                                    .collect();
-                                scan.sort();
-                                let active_s = coq_list(active.iter().map(|(a, st)| {
-                                    let vi = idx_of(a.as_node_id()).unwrap();
-                                    let (made, missed) = stats.get(&vi).cloned().unwrap_or((0, 0));
-                                    format!("({}, {}, {}, {})", vi, z(st), made, missed)
-                                }));
-                                let vals_s = coq_list((0..NV).map(|i| {
-                                    format!(
-                                        "({}, ({}, {}, {}), ({}, {}), {})",
-                                        i, z(&befores[i].v), z(&befores[i].u), z(&befores[i].ff), z(&afters[i].v), z(&afters[i].u), afters[i].prefix
-                                    )
-                                }));
-                                obs.push(format!(
-                                    "OEpoch {} {} {} {} {} {} {} {} {} {} {}",
-                                    z(&w.total_emission),
-                                    z(&w.minrel),
-                                    MAXV,
-                                    active_s,
-                                    coq_list(proposer.iter().map(|(k, v)| format!("({}, {})", k, z(v)))),
-                                    z(&vault),
-                                    coq_list(emis.iter().map(|(v, e)| format!("({}, {})", v, z(e)))),
-                                    coq_list(rew.iter().map(|(v, e)| format!("({}, {})", v, z(e)))),
-                                    vals_s,
-                                    coq_list(scan.iter().map(|(_, _, i)| format!("({}, {})", i, z(&afters[*i].v)))),
-                                    coq_list(next_list.iter().map(|(v, st)| format!("({}, {})", v, z(st)))),
-                                ));
+                        for _ in 0..len {
+                            if r.dead {
+                                break;
                             }
+                            r.step += 1;
+                            r.random_step(&mut rng);
                         }
-                        out.push(CaseResult {
-                            index: i,
-                            coq: format!("({})%Z", coq_list(obs.iter().cloned())),
-                            nontrivial: had_emission && had_roundtrip,
-                            counts: counts.into_iter().collect(),
-                            failures,
-                        });
+                        out.push(finish(i, r));
                         i += threads;
+                    }
+                    if t == 0 {
+                        out.push(scripted_zero_supply(cases));
                     }
                     out
                 })
@@ -548,6 +764,8 @@ fn main() {
     report.floor("epoch_changes", c);
     report.floor("epochs_with_emission", c / 4);
     report.floor("stake_unstake_round_trips", c / 4);
+    report.floor("claim_ok", c / 8);
+    report.floor("scripted_zero_supply_histories", 1);
     cw.write(&args.out, args.shards).unwrap();
     report.write(&args.out).unwrap();
 }
